@@ -45,6 +45,7 @@ type frame struct {
 	panicVal  interface{}
 	visits    map[*ssa.BasicBlock]int
 	depth     int
+	phiOverride map[*ssa.Phi]Value
 }
 
 type Decision struct {
@@ -96,6 +97,8 @@ type Exec struct {
 	powSeq    int
 	timers    []*TimerV
 	overreadLen bool
+	speculative bool
+	merges      int
 }
 
 func (ex *Exec) abort(status, format string, args ...interface{}) {
@@ -116,6 +119,9 @@ func (ex *Exec) addPC(c *Term) {
 	if c.IsTrue() {
 		return
 	}
+	if ex.speculative {
+		panic(mergeFail{"path condition update while merging"})
+	}
 	ex.sess.Assert(c)
 	ex.pcLen++
 }
@@ -130,6 +136,9 @@ func (ex *Exec) branch(c *Term) bool {
 	}
 	if c.IsFalse() {
 		return false
+	}
+	if ex.speculative {
+		panic(mergeFail{"symbolic branch while merging"})
 	}
 	ex.symBranch++
 	pos := len(ex.decisions)
@@ -510,6 +519,12 @@ func (ex *Exec) visit(fr *frame, instr ssa.Instruction) cont {
 		store(addr, fr.get(instr.Val))
 	case *ssa.If:
 		c := fr.term(instr.Cond)
+		if !c.IsConst() && !ex.cfg.NoMerge && ex.tryMerge(fr, instr, c) {
+			return kJump
+		}
+		if ex.speculative {
+			panic(mergeFail{"branch in speculative arm"})
+		}
 		succ := 1
 		if ex.branch(c) {
 			succ = 0
@@ -593,6 +608,11 @@ func (ex *Exec) visit(fr *frame, instr ssa.Instruction) cont {
 		}
 		fr.env[instr] = &ClosureV{fn: instr.Fn.(*ssa.Function), env: env}
 	case *ssa.Phi:
+		if v, ok := fr.phiOverride[instr]; ok {
+			fr.env[instr] = v
+			delete(fr.phiOverride, instr)
+			break
+		}
 		for i, pred := range instr.Block().Preds {
 			if fr.prev == pred {
 				fr.env[instr] = fr.get(instr.Edges[i])
